@@ -13,10 +13,12 @@ import (
 // runs in the Gallina model (V-mode) and compare.
 
 type interpCase struct {
-	vc   *VCase
-	ast  []*Ast
-	tags map[string]bool
-	incs [][]*Ast
+	vc     *VCase
+	ast    []*Ast
+	tags   map[string]bool
+	incs   [][]*Ast
+	incIdx []int  // index into incs of each registered include key (vc.RegKeys order)
+	spec   string // verdict of the reference semantics: "ok" | "na" | "bad <hex> <err>"
 }
 
 func renderRun(key string, data *DataEnv, fail, short int) VRun {
@@ -58,6 +60,7 @@ func genInterpCase(id int, rng *RNG, prof *Profile) *interpCase {
 		n := 1 + rng.Intn(3)
 		for j := 0; j < n; j++ {
 			sub := g.genItems(1, g.small())
+			trimTail(sub)
 			ic.incs = append(ic.incs, sub)
 			src := printNodes(sub)
 			key, dump, o := parseDump([]byte(src), false)
@@ -66,14 +69,18 @@ func genInterpCase(id int, rng *RNG, prof *Profile) *interpCase {
 				continue
 			}
 			g.incs = append(g.incs, key)
+			ic.incIdx = append(ic.incIdx, len(ic.incs)-1)
 			vc.Reg[key] = dump
 			vc.RegKeys = append(vc.RegKeys, key)
 			vc.Meta["inc:"+key] = src
 		}
 	}
 	ic.ast = g.genItems(0, 1+rng.Intn(prof.MaxItems))
-	vc.Src = printNodes(ic.ast)
 	vc.KeepFmt = prof.KeepFmt && rng.Bool()
+	if !vc.KeepFmt {
+		trimTail(ic.ast)
+	}
+	vc.Src = printNodes(ic.ast)
 	vc.Budget = g.budget + 2
 	ic.vc = vc
 	return ic
@@ -122,6 +129,7 @@ func runInterp(o *Options, prop string, prof *Profile, quickN, thoroughN int, co
 	}
 	var vcs []*VCase
 	for _, ic := range cases {
+		ic.vc.Spec = ic.specGallina()
 		vcs = append(vcs, ic.vc)
 	}
 	if err := RunCases(o, vcs); err != nil {
@@ -152,12 +160,31 @@ func runInterp(o *Options, prop string, prof *Profile, quickN, thoroughN int, co
 			if strings.HasPrefix(v, "bad") {
 				res.Mismatches++
 				f := strings.Fields(v)
-				mout := unhex(f[1])
+				mout := unhex(f[1][1:])
 				replay["model_out"] = string(mout)
 				res.AddViolation(&Violation{Kind: "no-failing-input-found", Class: "correspondence", Lemma: corr,
 					What: fmt.Sprintf("model and implementation differ on template %q (fault k=%d): implementation %q err=%q writes=%d, model %q err-class=%s writes=%s",
 						vc.Src, r.Fail, r.Obs.Out, r.Obs.Err, r.Writes, mout, f[2], f[3]), Replay: replay})
 			}
+		}
+		res.Hist("parse:" + vc.ParseVerdict)
+		if vc.ParseVerdict == "bad" {
+			res.Mismatches++
+			res.AddViolation(&Violation{Kind: "no-failing-input-found", Class: "parser-correspondence", Lemma: "parser correspondence: compile (Spec/Compile.v) vs Parse + VerifTree",
+				What:   fmt.Sprintf("the tree the real parser builds for %q is not the compiled AST", vc.Src),
+				Replay: map[string]any{"template": vc.Src, "keep_fmt": vc.KeepFmt, "includes": vc.Meta, "seed": o.Seed, "tier": o.Tier}})
+		}
+		// the reference semantics on the generator's AST decides the property on the real output
+		res.Hist("spec:" + strings.Fields(vc.SpecVerdict)[0])
+		if strings.HasPrefix(vc.SpecVerdict, "bad") {
+			f := strings.Fields(vc.SpecVerdict)
+			r := vc.Runs[0]
+			res.OracleFails++
+			class := classify(prop, ic)
+			res.AddViolation(&Violation{Kind: "failing-input", Class: class,
+				What: fmt.Sprintf("template %q renders %q (err=%q) but the reference semantics demands %q (err-class %s)", vc.Src, r.Obs.Out, r.Obs.Err, unhex(f[1][1:]), f[2]),
+				Replay: map[string]any{"template": vc.Src, "keep_fmt": vc.KeepFmt, "data_env": vc.Data.Env(), "observed": string(r.Obs.Out), "observed_hex": hx(r.Obs.Out), "observed_err": r.Obs.Err,
+					"expected": string(unhex(f[1][1:])), "expected_hex": f[1][1:], "expected_err_class": f[2], "includes": vc.Meta, "seed": o.Seed, "tier": o.Tier}})
 		}
 		if len(res.Samples) < 10 && len(vc.Runs) > 0 {
 			res.Sample(map[string]any{"template": vc.Src, "output": string(vc.Runs[0].Obs.Out), "err": vc.Runs[0].Obs.Err, "runs": len(vc.Runs)}, 10)
@@ -182,4 +209,9 @@ func unhex(s string) []byte {
 		fmt.Sscanf(s[2*i:2*i+2], "%02x", &b[i])
 	}
 	return b
+}
+
+// classify names the decidable class of a specification failure (guards of known_findings.txt).
+func classify(prop string, ic *interpCase) string {
+	return "spec:" + prop
 }
